@@ -45,6 +45,8 @@ fn main() {
         Section::enumerate("merge-plan-small", plan::SMALL_SCOPE, plan::small_scope, move |c: &plan::PlanCase| plan::check(c, &k2)).shards(16),
     );
 
+    ck.run(Section::pbt("merge-plan-from-directory", tier.pick(3_000, 100_000), plan::dir_strategy, plan::check_dir).shards(16));
+
     // the two copy routines of the mover, lengths aimed at the chunk boundaries
     ck.run(Section::pbt("mover", tier.pick(20_000, 400_000), mover::strategy, mover::check).shards(16).shrink_iters(300));
     let infra: Vec<String> = std::mem::take(&mut *mover::INFRA.lock().unwrap());
@@ -52,7 +54,7 @@ fn main() {
         ck.infra(format!("mover: {m}"));
     }
 
-    ck.run(Section::pbt("archive-compact", tier.pick(600, 30_000), archive::strategy, archive::check).shards(16).shrink_iters(200));
+    ck.run(Section::pbt("archive-compact", tier.pick(6_000, 100_000), archive::strategy, archive::check).shards(16).shrink_iters(200));
 
     ck.finish();
 }
